@@ -162,7 +162,7 @@ Definition conflict_free_ip (p : plan) (f : foot) (y : styles) : bool :=
   match unordered_conflicts_ip p f y with [] => true | _ => false end.
 
 (* column condition of the exempted pairs.  colsig: sid -> (columns written, columns read).
-   Every in-place step writes distinct columns and reads none of them; two unordered in-place steps on one object write
+   Every in-place step writes at least one column, distinct columns, and reads none of them; two unordered in-place steps on one object write
    different columns and neither reads a column the other writes. *)
 Definition colsig := list (nat * (list nat * list nat)).
 Fixpoint cols_of (c : colsig) (s : nat) : list nat * list nat :=
@@ -171,7 +171,8 @@ Definition disj (a b : list nat) : bool := forallb (fun x => negb (mem x b)) a.
 Fixpoint nodupn (l : list nat) : bool := match l with [] => true | x :: t => negb (mem x t) && nodupn t end.
 Definition ip_cols_ok (p : plan) (f : foot) (y : styles) (c : colsig) : bool :=
   forallb (fun a => negb (style_of y (sid a))
-                    || (nodupn (fst (cols_of c (sid a))) && disj (snd (cols_of c (sid a))) (fst (cols_of c (sid a))))) p
+                    || (negb (Nat.eqb (length (fst (cols_of c (sid a)))) 0)
+                        && nodupn (fst (cols_of c (sid a))) && disj (snd (cols_of c (sid a))) (fst (cols_of c (sid a))))) p
   && forallb (fun a => forallb (fun b =>
        negb (negb (Nat.eqb (sid a) (sid b)) && unordered p a b && ip_pair f y (sid a) (sid b))
        || (disj (fst (cols_of c (sid a))) (fst (cols_of c (sid b)))
